@@ -8,12 +8,17 @@ Tie X-C02 (L2): the same machinery as C01 in the other direction: every concrete
 reported path unless the run is flagged (loop bound / depth) or a path is stuck; run under
 --solver-timeout-branching in {0, 1 ms, 10 s}, --loop in {1,2,3}, and with a fraction of the
 solver's definite answers replaced by `unknown` (legal oracle behaviour).
+Tie X-C02-bp: the branch points other than JUMPI (address aliases, insufficient-funds fork, symbolic
+JUMP): T-branchpts regenerates their decision functions from sevm.py (Gen/GenBranch.v, used by
+Model/BranchPoints.v and the C02_alias_* / C02_funds_* / C02_symjump_* theorems), and harness/bptie.py
+runs the real resolve_address_alias / handle_insufficient_fund_case + transfer_value / symbolic-JUMP arm
+and the extracted model on the same finite-valuation states (complete and always-unknown oracle).
 """
 from harness import common
 from harness.props import C01
 
 PID = "C02"
-TRANSLATORS = ["T-jumpi", "T-consts"]
+TRANSLATORS = ["T-jumpi", "T-consts", "T-branchpts"]
 
 OPTIONS = [{}, {"solver_timeout_branching": 0}, {"solver_timeout_branching": 10000}, {"loop": 1}, {"loop": 3}, {"solver_timeout_branching": 10000, "loop": 1}]
 PLAN_QUICK = [("branch", 18), ("memory", 6), ("storage", 10), ("hash", 8), ("loop", 12), ("call", 10), ("create", 6), ("symtarget", 24), ("valuecall", 18), ("callfail", 8)]
@@ -25,7 +30,11 @@ def run(rep, tier):
     common.standard_obligations(rep, PID, b)
     plan = PLAN_QUICK if tier == "quick" else PLAN_THOROUGH
     try:
+        from harness import bptie
+
+        bptie.run(rep, tier, common.rng(PID + "-bp"))
         C01.run_tie(rep, tier, plan, PID + "-a", PID, "c02", options_list=OPTIONS, with_model=False)
+        C01.run_tie(rep, tier, [("symjump", 10 if tier == "quick" else 150)], PID + "-j", PID, "c02", options_list=[{"symbolic_jump": True}], with_model=False)
         # legal oracle behaviour: 30 % of definite solver answers become `unknown`
         half = [(p, max(2, n // 3)) for p, n in plan if p in ("branch", "loop", "storage", "call", "symtarget")] + [(p, n) for p, n in plan if p == "valuecall"]
         C01.run_tie(rep, tier, half, PID + "-b", PID, "c02", options_list=[{}, {"loop": 3}], patch_unknown=0.3, with_model=False)
